@@ -310,10 +310,16 @@ META = {
                 'arithmetic): gen_acyclic (every generated constraint goes forward in the CmpNodePos order, so the graph is a DAG; both generators, '
                 'both modes, any event order, any address oracle); entail_check_sound / topo_check_sound (verified certificates: if the longest-path '
                 'closure test accepts, EVERY placement satisfying the constraints has no pair overlapping with positive area); sizes_preserved; '
-                'borders_restored; C09_pipeline_partial (no overlap after the last pass given the solver satisfies that pass and the certificate holds). '
-                'PARTIAL: the chain lemma (the certificate always succeeds on generated sets) is not proved; instead the certificate is evaluated on '
-                'every instance, on the model\'s and on the implementation\'s constraint sets. The model is compared exactly with the compiled '
-                'generators on every run.',
+                'borders_restored; the chain lemma of Dwyer-Marriott-Stuckey (Rect/Chain.v: C09_genY_entails_no_overlap, C09_genX_entails_no_overlap - for every '
+                'rectangle set with non-negative sizes and every CmpNodePos that is a strict order total on the nodes, any two rectangles whose open '
+                'intervals in the sweep dimension intersect are joined by a chain of generated constraints, so every placement satisfying the constraints '
+                'has no pair overlapping with positive area; scan-line invariant: sorted scan line, firstAbove/firstBelow = predecessor/successor, chains '
+                'of links preserved by open/close); C09_pipeline_chain / C09_removeoverlaps_no_overlap (no overlap after the last pass of removeoverlaps, '
+                'given only that the solver\'s answer satisfies that pass\'s acyclic constraint set - stated as an explicit premise `solver_contract`). '
+                'PARTIAL: the solver premise is not discharged by a theorem (removeoverlaps calls the static vpsc::Solver, which has no Coq model; the C01 '
+                'theorems are about the IncSolver model and give slack >= -1e-10, not exact satisfaction). The entail_check certificate is still evaluated on '
+                'every instance (model\'s and implementation\'s constraint sets) as validation of model and chain lemma. The model is compared exactly '
+                'with the compiled generators on every run.',
         'design_ref': 'DESIGN.md 5.9'},
     'level_note': 'Trusted: Coq kernel; the hand-written models (Rect/RectBase.v, ScanlineModel.v, RemoveOverlapsModel.v: validated by exact correspondence on '
                   'every run, not derived from the source; cpp2v cannot translate reads of the mutable statics xBorder/yBorder nor intra-class method '
